@@ -136,24 +136,13 @@ Lemma lcom_medium_threshold_full : forall file,
   analyze_lcom_medium_threshold file = eff None file domain_DefaultLCOMMediumThreshold.
 Proof. intros [v|]; reflexivity. Qed.
 
-Lemma cbo_thresholds_file_never_read : forall file file',
-  analyze_cbo_low_threshold file = analyze_cbo_low_threshold file' /\
-  analyze_cbo_medium_threshold file = analyze_cbo_medium_threshold file'.
-Proof. intros [v|] [w|]; split; reflexivity. Qed.
+Lemma cbo_low_threshold_full : forall file,
+  analyze_cbo_low_threshold file = eff None file domain_DefaultCBOLowThreshold.
+Proof. intros [v|]; reflexivity. Qed.
 
-Lemma cbo_thresholds_refuted :
-  (exists v, analyze_cbo_low_threshold (Some v) <> eff None (Some v) domain_DefaultCBOLowThreshold) /\
-  (exists v, analyze_cbo_medium_threshold (Some v) <> eff None (Some v) domain_DefaultCBOMediumThreshold).
-Proof. split; [exists 1 | exists 4]; vm_compute; discriminate. Qed.
-
-Lemma cbo_thresholds_partial : forall file,
-  ((forall v, file = Some v -> v = domain_DefaultCBOLowThreshold) ->
-   analyze_cbo_low_threshold file = eff None file domain_DefaultCBOLowThreshold) /\
-  ((forall v, file = Some v -> v = domain_DefaultCBOMediumThreshold) ->
-   analyze_cbo_medium_threshold file = eff None file domain_DefaultCBOMediumThreshold).
-Proof.
-  intros [v|]; split; intros H; try reflexivity; cbn [eff]; rewrite (H v eq_refl); reflexivity.
-Qed.
+Lemma cbo_medium_threshold_full : forall file,
+  analyze_cbo_medium_threshold file = eff None file domain_DefaultCBOMediumThreshold.
+Proof. intros [v|]; reflexivity. Qed.
 
 (* ---------------------------------------------------------------- check --max-complexity *)
 
